@@ -1021,3 +1021,10 @@ mod test {
         println!("bytes_sent {bytes_sent}");
     }
 }
+
+// verification hook (guard: --cfg ipa_verif)
+#[cfg(all(test, ipa_verif))]
+#[allow(warnings, clippy::all, clippy::pedantic)]
+mod verif {
+    include!(concat!(env!("IPA_VERIF_DIR"), "/h4_dp.rs"));
+}
